@@ -43,7 +43,30 @@ enum Op {
     Fmt2(String, String),
     /// `write!(s, "\x1b[{}m{}\n", a, b)`: literal pieces of the format string between the arguments
     FmtLit(String, String),
+    /// `write!(s, "<literal>")` with no arguments (`Arguments::as_str()` is `Some`): index into ONLY_LITERALS
+    OnlyLit(usize),
     Flush,
+}
+
+/// literal-only format strings: every chunk token that is valid UTF-8
+const ONLY_LITERALS: [&str; 13] = ["a", "\x1b", "[", "1m", "\x1b[1m", "\n", "", "é", "\x1b]", "0;t", "\x07", "ab\x1b[0mcd\n", "\x1b[38;5;1mX"];
+
+fn write_only_literal<S: Write>(s: &mut S, i: usize) -> std::io::Result<()> {
+    match i {
+        0 => write!(s, "a"),
+        1 => write!(s, "\x1b"),
+        2 => write!(s, "["),
+        3 => write!(s, "1m"),
+        4 => write!(s, "\x1b[1m"),
+        5 => write!(s, "\n"),
+        6 => write!(s, ""),
+        7 => write!(s, "é"),
+        8 => write!(s, "\x1b]"),
+        9 => write!(s, "0;t"),
+        10 => write!(s, "\x07"),
+        11 => write!(s, "ab\x1b[0mcd\n"),
+        _ => write!(s, "\x1b[38;5;1mX"),
+    }
 }
 
 impl Op {
@@ -54,6 +77,7 @@ impl Op {
             Op::Vectored(v) => format!("write_vectored:{}", v.iter().map(|c| hex(c)).collect::<Vec<_>>().join("|")),
             Op::Fmt2(a, b) => format!("write_fmt:{}|{}", hex(a.as_bytes()), hex(b.as_bytes())),
             Op::FmtLit(a, b) => format!("write_fmt_lit:{}|{}", hex(a.as_bytes()), hex(b.as_bytes())),
+            Op::OnlyLit(i) => format!("write_fmt_only_literal:{i}"),
             Op::Flush => "flush".to_string(),
         }
     }
@@ -67,6 +91,7 @@ impl Op {
             Ok((unhex(a), unhex(b)))
         };
         match k {
+            "write_fmt_only_literal" => Ok(Op::OnlyLit(rest.parse().map_err(|_| format!("bad op label {l}"))?)),
             "write" => Ok(Op::Write(unhex(rest))),
             "write_all" => Ok(Op::WriteAll(unhex(rest))),
             "write_vectored" if rest.is_empty() => Ok(Op::Vectored(vec![])),
@@ -86,6 +111,7 @@ impl Op {
             Op::Vectored(v) => v.concat(),
             Op::Fmt2(a, b) => [a.as_bytes(), b.as_bytes()].concat(),
             Op::FmtLit(a, b) => format!("\x1b[{a}m{b}\n").into_bytes(),
+            Op::OnlyLit(i) => ONLY_LITERALS[(*i).min(ONLY_LITERALS.len() - 1)].as_bytes().to_vec(),
             Op::Flush => vec![],
         }
     }
@@ -107,6 +133,7 @@ fn apply<S: Write>(s: &mut S, op: &Op) -> Result<Ret, String> {
         }
         Op::Fmt2(a, b) => write!(s, "{}{}", a, b).map(|_| Ret::Unit),
         Op::FmtLit(a, b) => write!(s, "\x1b[{}m{}\n", a, b).map(|_| Ret::Unit),
+        Op::OnlyLit(i) => write_only_literal(s, *i).map(|_| Ret::Unit),
         Op::Flush => s.flush().map(|_| Ret::Unit),
     }
     .map_err(|e| format!("{:?}: {e}", e.kind()))
@@ -162,6 +189,9 @@ fn op_tokens(quick: bool) -> Vec<Op> {
         for b in &strs {
             v.push(Op::Fmt2(a.clone(), b.clone()));
         }
+    }
+    for i in 0..ONLY_LITERALS.len() {
+        v.push(Op::OnlyLit(i));
     }
     v.push(Op::Flush);
     if !quick {
